@@ -330,7 +330,18 @@ class Uploader:
                      query_string={"ajax": "1", "csrf_token": self.token("files")})
         steps.append(d)
         with self.app.ctx() as m:         # make sure the scratch stream is empty again
-            for mf in list(m.MediaFile.search(stream_pk=self.spk)):
+            try:
+                left = list(m.MediaFile.search(stream_pk=self.spk))
+            except Exception as e:        # the stored row itself can no longer be loaded
+                steps.append({"step": "reload-media-row", "status": 500, "seconds": 0.0, "json": None,
+                              "exc": (type(e).__name__, "models/mediafile.py:_post_init", str(e)[:160])})
+                m.db.session.rollback()
+                m.db.session.execute(m.db.text("DELETE FROM media_file_error WHERE media_pk IN "
+                                               "(SELECT pk FROM media_file WHERE stream = :s)"), {"s": self.spk})
+                m.db.session.execute(m.db.text("DELETE FROM media_file WHERE stream = :s"), {"s": self.spk})
+                m.db.session.commit()
+                left = []
+            for mf in left:
                 try:
                     mf.delete_file()
                 except Exception:
